@@ -108,7 +108,7 @@ def coq_case(c):
 def project(obs):
     canon_, out = {}, []
     for l in obs:
-        if l.startswith("t") and " TryInsert " in l:
+        if re.match(r"t\d+ \w+ \S+$", l):          # an announced step of the scheduler: thread, operation, location
             tid, op, loc = l.split(" ", 2)
             out.append((tid, op, canon_.setdefault(loc, len(canon_))))
         else:
